@@ -19,7 +19,13 @@ EPS = 1e-9
 _cache = {}
 
 
-def _obj(x, label, uuid):
+def _raw_name(lab, k):
+    """The raw (pre-conversion) class name an object carries is NOT part of a track's identity (`Label.__eq__` compares the converted
+    label only): the same track may be spelled `car`, `CAR` or `vehicle.car` in consecutive frames (round 5 of DESIGN section 9)."""
+    return [lab.value, lab.value.upper(), "vehicle." + lab.value][k % 3]
+
+
+def _obj(x, label, uuid, k=0):
     from perception_eval.common import DynamicObject
     from perception_eval.common.label import AutowareLabel, Label
     from perception_eval.common.schema import FrameID
@@ -29,17 +35,17 @@ def _obj(x, label, uuid):
     lab = AutowareLabel[label]
     return DynamicObject(unix_time=100, frame_id=FrameID.BASE_LINK, position=(x, 2.0, 0.0), orientation=Quaternion([1.0, 0.0, 0.0, 0.0]),
                          shape=Shape(shape_type=ShapeType.BOUNDING_BOX, size=(2.0, 4.0, 2.0)), semantic_score=0.5,
-                         semantic_label=Label(lab, lab.value, []), velocity=(0.0, 0.0, 0.0), uuid=uuid)
+                         semantic_label=Label(lab, _raw_name(lab, k), []), velocity=(0.0, 0.0, 0.0), uuid=uuid)
 
 
-def _obj2d(px, label, uuid):
+def _obj2d(px, label, uuid, k=0):
     """a 16 x 16 px ROI on the front camera, shifted px pixels along x: centre distance = px exactly, IoU 2D = (16 - px) / (16 + px)"""
     from perception_eval.common.label import AutowareLabel, Label
     from perception_eval.common.object2d import DynamicObject2D
     from perception_eval.common.schema import FrameID
 
     lab = AutowareLabel[label]
-    return DynamicObject2D(unix_time=100, frame_id=FrameID.CAM_FRONT, semantic_score=0.5, semantic_label=Label(lab, lab.value, []),
+    return DynamicObject2D(unix_time=100, frame_id=FrameID.CAM_FRONT, semantic_score=0.5, semantic_label=Label(lab, _raw_name(lab, k), []),
                            roi=(200 + int(px), 120, 16, 16), uuid=uuid)
 
 
@@ -52,11 +58,13 @@ def _result(res, policy, pe="e", pg="g", dim="3d"):
     key = (pe, e, el, pg, g, gl, off, policy, dim)
     r = _cache.get(key)
     if r is None and dim == "2d":
-        r = DynamicObjectWithPerceptionResult(_obj2d(off, el, f"{pe}{e}"), None if g is None else _obj2d(0, gl, f"{pg}{g}"), MatchingLabelPolicy[policy])
+        k = e + off + (0 if g is None else g + 1)     # the raw spelling changes whenever the pairing or the offset does
+        r = DynamicObjectWithPerceptionResult(_obj2d(off, el, f"{pe}{e}", k), None if g is None else _obj2d(0, gl, f"{pg}{g}", k + 1), MatchingLabelPolicy[policy])
         _cache[key] = r
     if r is None:
-        est = _obj(16.0 + off / 8.0, el, f"{pe}{e}")
-        gt = None if g is None else _obj(16.0, gl, f"{pg}{g}")
+        k = e + off + (0 if g is None else g + 1)     # the raw spelling changes whenever the pairing or the offset does
+        est = _obj(16.0 + off / 8.0, el, f"{pe}{e}", k)
+        gt = None if g is None else _obj(16.0, gl, f"{pg}{g}", k + 1)
         r = DynamicObjectWithPerceptionResult(est, gt, MatchingLabelPolicy[policy])
         if len(_cache) > 200000:
             _cache.clear()
